@@ -6,8 +6,11 @@ package main
 
 import (
 	"bytes"
+	"encoding/json"
 	"errors"
 	"fmt"
+	"hash/fnv"
+	"math/rand"
 	"os"
 	"path/filepath"
 	"runtime"
@@ -41,7 +44,7 @@ func (r *result) put(obs J) {
 		obs["msg"] = r.Msg
 		obs["srcerr"] = r.IsSrcErr
 	}
-	if r.Outcome == "unstable" {
+	if r.Outcome == "unstable" || r.Outcome == "repdiff" {
 		obs["msg"] = r.Msg
 	}
 	if r.Outcome == "panic" {
@@ -350,6 +353,51 @@ func runRender(c J) J {
 	if m, ok := c["mention"].(string); ok && res.Outcome == "error" {
 		obs["msgok"] = len(res.Msg) > 0 && strings.Contains(res.Msg, m)
 	}
+	// the same logical bindings in other Go representations (C18): the result must be the same
+	if k := jint(c, "altreprs"); k > 0 && (res.Outcome == "ok" || res.Outcome == "error") {
+		h := fnv.New64a()
+		h.Write([]byte(fmt.Sprint(c["id"])))
+		rnd := rand.New(rand.NewSource(int64(h.Sum64())))
+		// the yardstick is the generic representation (the case's own may use representations C18 does not speak of)
+		base := res
+		if _, own := c["repr"]; own {
+			c1 := cloneCase(c)
+			delete(c1, "repr")
+			if rs1, err := prepareRender(c1); err == nil {
+				base = doRender(rs1, jstr(c, "entry"))
+				rs1.cleanup()
+			}
+		}
+		differs := func(r2 result) bool {
+			return r2.Outcome != base.Outcome || (base.Outcome == "ok" && !bytes.Equal(base.Out, r2.Out))
+		}
+		// (the case's own representation is compared too when it stays within what C18 speaks of)
+		if jbool(c, "cmpown") && differs(res) {
+			rj, _ := json.Marshal(c["repr"])
+			obs["outcome"] = "repdiff"
+			obs["msg"] = fmt.Sprintf("with the representation %s the result is %s %q, with the generic one it is %s %q", rj, res.Outcome,
+				truncate(string(res.Out)+res.Msg, 160), base.Outcome, truncate(string(base.Out)+base.Msg, 160))
+			k = 0
+		}
+		for i := 0; i < k; i++ {
+			c2 := cloneCase(c)
+			rep := autoRepr(jarr(c, "env"), rnd)
+			c2["repr"] = rep
+			rs2, err := prepareRender(c2)
+			if err != nil {
+				continue
+			}
+			res2 := doRender(rs2, jstr(c, "entry"))
+			rs2.cleanup()
+			if differs(res2) {
+				rj, _ := json.Marshal(rep)
+				obs["outcome"] = "repdiff"
+				obs["msg"] = fmt.Sprintf("with the representation %s the result is %s %q, with the generic one it is %s %q", rj, res2.Outcome,
+					truncate(string(res2.Out)+res2.Msg, 160), base.Outcome, truncate(string(base.Out)+base.Msg, 160))
+				break
+			}
+		}
+	}
 	// a second program to be rendered in the same setting (C13: the hyphen-free twin)
 	if _, ok := c["prog0"]; ok {
 		c0 := cloneCase(c)
@@ -377,16 +425,15 @@ func cloneCase(c J) J {
 	return obs
 }
 
-
 // repoTestEnv resembles the bindings the repository's own tests render their templates with.
 func repoTestEnv() map[string]any {
 	return map[string]any{
 		"x": 123, "a": []any{"first", "second", "third"}, "array": []any{"first", "second", "third"}, "ar": []string{"first", "second", "third"},
 		"obj": map[string]any{"a": 1, "b": "c"}, "hash": map[string]any{"a": "first", "b": map[string]any{"c": "d"}, "c": []string{"r", "g", "b"}},
 		"animals": []string{"zebra", "octopus", "giraffe", "Sally Snake"}, "page": map[string]any{"title": "Introduction", "keys": []string{"a"}},
-		"pages": []any{map[string]any{"category": "business", "name": "page 1"}, map[string]any{"name": "page 3"}, map[string]any{"category": "technology", "name": "page 2"}},
-		"products": []any{map[string]any{"title": "Vacuum", "type": "cleaning"}, map[string]any{"title": "Spatula", "type": "kitchen"}},
-		"sort_prop": []any{map[string]any{"weight": 1}, map[string]any{"weight": 5}, map[string]any{"weight": nil}, map[string]any{"weight": 3}},
+		"pages":                []any{map[string]any{"category": "business", "name": "page 1"}, map[string]any{"name": "page 3"}, map[string]any{"category": "technology", "name": "page 2"}},
+		"products":             []any{map[string]any{"title": "Vacuum", "type": "cleaning"}, map[string]any{"title": "Spatula", "type": "kitchen"}},
+		"sort_prop":            []any{map[string]any{"weight": 1}, map[string]any{"weight": 5}, map[string]any{"weight": nil}, map[string]any{"weight": 3}},
 		"string_with_newlines": "\nHello\nthere\n", "fruits": []string{"apples", "oranges", "peaches", "plums"}, "empty_list": []any{}, "empty_array": []any{},
 		"article": map[string]any{"published_at": "2015-07-17T15:04:05Z"}, "dup_ints": []int{1, 2, 1, 3}, "mixed_case_array": []string{"c", "a", "B"},
 		"safe": "a", "v": "v", "ints": []int{2, 1, 3}, "map": map[string]any{"a": 1}, "site": map[string]any{"pages": []any{}}, "title": "t",
